@@ -247,7 +247,7 @@ func (l *eventLog) uninstall() {
 func init() {
 	commands["run-hist"] = func(args []string) int {
 		fs := flag.NewFlagSet("run-hist", flag.ExitOnError)
-		mode := fs.String("mode", "seq", "seq|conc")
+		mode := fs.String("mode", "seq", "seq|conc|mutex")
 		in := fs.String("i", "", "seq: TLC output with <<\"H\", json>> histories ([] of calls); empty = generate")
 		n := fs.Int("n", 200, "generated histories (seq) / calls per goroutine (conc)")
 		length := fs.Int("len", 12, "generated history length")
@@ -363,6 +363,62 @@ func init() {
 				}
 			}
 			log.uninstall()
+		} else if *mode == "mutex" {
+			// schedule forcing for the critical sections of Pool.tla's atomic steps: the callback of the hook that sits
+			// INSIDE a critical section records csEnter, holds the goroutine there until a second goroutine arrives in
+			// the same section or a short time has passed, and records csExit.  Under a mutex nobody can arrive, so the
+			// log shows disjoint sections; any overlap in the log is an overlap of real critical sections.
+			re := compileHist(0)
+			var inside sync.Map // obj -> *int32
+			arrive := make(chan struct{}, 1024)
+			regexp2.SetVerifOnPoint(func(point string, obj any, a, b int) {
+				if point != "cacheGet" && point != "cacheAdd" {
+					return
+				}
+				g := goid()
+				cnt, _ := inside.LoadOrStore(obj, new(int32))
+				rec := func(ev string) {
+					log.mu.Lock()
+					log.seq++
+					log.evs = append(log.evs, poolEvent{Seq: log.seq, G: g, Ev: ev, Obj: log.id(obj), A: a, B: b})
+					log.mu.Unlock()
+				}
+				rec("csEnter")
+				if atomic.AddInt32(cnt.(*int32), 1) == 1 {
+					select {
+					case <-arrive:
+					case <-time.After(3 * time.Millisecond):
+					}
+				} else {
+					select {
+					case arrive <- struct{}{}:
+					default:
+					}
+				}
+				atomic.AddInt32(cnt.(*int32), -1)
+				rec("csExit")
+			})
+			var wg sync.WaitGroup
+			for gi := 0; gi < *G; gi++ {
+				wg.Add(1)
+				go func(gi int) {
+					defer wg.Done()
+					for k := 0; k < *n; k++ {
+						// the same few replacement strings (cache hits, list reordering) and fresh ones (inserts, evictions)
+						repl := fmt.Sprintf("<$0:%d>", (k+gi)%3)
+						if k%5 == 4 {
+							repl = fmt.Sprintf("<$0:%d:%d>", gi, k)
+						}
+						re.Replace("xaby", repl, -1, -1)
+						mmu.Lock()
+						steps++
+						nontrivial++
+						mmu.Unlock()
+					}
+				}(gi)
+			}
+			wg.Wait()
+			regexp2.SetVerifOnPoint(nil)
 		} else {
 			if *procs > 0 {
 				runtime.GOMAXPROCS(*procs)
